@@ -255,20 +255,25 @@ impl<T> AtomicBucket<T> {
                 Err(value) => {
                     #[cfg(metrics_verif)]
                     metrics::__verif::point("bucket.push.block_full");
+                    // Link the new block to the previous block _before_ publishing it, so that
+                    // nobody can ever observe a tail block whose chain of older blocks is missing:
+                    // a reader would miss every older value, and a clear would detach only the
+                    // fresh block and orphan the rest of the chain.
+                    let new_block = Owned::new(Block::new());
+                    new_block.next.store(tail, Ordering::Relaxed);
                     match self.tail.compare_exchange(
                         tail,
-                        Owned::new(Block::new()),
+                        new_block,
                         Ordering::AcqRel,
                         Ordering::Acquire,
                         guard,
                     ) {
-                        // We managed to install the block, so we need to link this new block to
-                        // the nextious block.
+                        // We managed to install the block, which is already linked to the
+                        // previous block.
                         Ok(ptr) => {
                             let new_tail = unsafe { ptr.deref() };
                             #[cfg(metrics_verif)]
                             metrics::__verif::point("bucket.push.new_tail_cas_ok");
-                            new_tail.next.store(tail, Ordering::Release);
                             #[cfg(metrics_verif)]
                             metrics::__verif::point("bucket.push.next_linked");
 
